@@ -149,8 +149,11 @@ Section Agree.
   Variable sc : schema.
   Variable w : world.
   Hypothesis Hnd : nodup_z (map o_key w) = true.
+  Variable t : obj.                  (* the object bound to the other variable (two-variable queries); unused otherwise *)
 
-  (* ---------- the one environment a root row extends to along to-one joins ---------- *)
+  Definition is_jrel (j : join) : bool := match j with JRel _ _ _ => true | _ => false end.
+
+  (* ---------- the one environment a root row (and a row of the joined table) extends to along to-one joins ---------- *)
   Definition step_env (env : list row) (j : join) : option (list row) :=
     match j with
     | JRel src a tgt =>
@@ -161,7 +164,7 @@ Section Agree.
                     end
         | _ => None
         end
-    | _ => None
+    | JCross _ | JEq _ _ _ _ => Some (env ++ [row_of t])
     end.
   Fixpoint build_env (env : list row) (js : list join) : option (list row) :=
     match js with
@@ -177,7 +180,8 @@ Section Agree.
   Qed.
   Lemma step_env_shape env j env' : step_env env j = Some env' -> exists r, env' = env ++ [r].
   Proof.
-    destruct j; simpl; try discriminate. destruct (ecol env src a); try discriminate.
+    destruct j; simpl; try (intros H; injection H as <-; eauto; fail).
+    destruct (ecol env src a); try discriminate.
     destruct (find_obj w z); try discriminate. destruct (inst_of sc tgt o); try discriminate.
     intros H. injection H as <-. eauto.
   Qed.
@@ -191,10 +195,10 @@ Section Agree.
       exists (r :: more). rewrite <- app_assoc. simpl. auto.
   Qed.
 
-  Lemma step_join_rows env j env' : step_env env j = Some env' ->
+  Lemma step_join_rows env j env' : is_jrel j = true -> step_env env j = Some env' ->
     map (fun r => env ++ [r]) (join_rows (encode sc w) env j) = [env'].
   Proof.
-    destruct j; simpl; try discriminate. destruct (ecol env src a) eqn:Ec; try discriminate.
+    destruct j; simpl; try discriminate. intros _. destruct (ecol env src a) eqn:Ec; try discriminate.
     destruct (find_obj w z) eqn:Ef; try discriminate. destruct (inst_of sc tgt o) eqn:Ei; try discriminate.
     intros H. injection H as <-. unfold encode, instances.
     erewrite filter_ext with (g := fun r => r_id r =? z).
@@ -202,15 +206,16 @@ Section Agree.
     - intros r. simpl. apply tv_true_of_bool.
   Qed.
 
-  Lemma envs_of_build js : forall envs outs,
+  Lemma envs_of_build js : forallb is_jrel js = true -> forall envs outs,
     Forall2 (fun env out => build_env env js = Some out) envs outs ->
     envs_of (encode sc w) js envs = outs.
   Proof.
-    induction js as [|j js IH]; simpl; intros envs outs H.
+    induction js as [|j js IH]; simpl; intros Hj envs outs H.
     - induction H; auto. injection H as <-. now f_equal.
-    - apply IH. induction H as [|env out envs outs H1 H2 IH2]; simpl; auto.
+    - apply andb_true_iff in Hj. destruct Hj as [Hj1 Hj2].
+      apply IH; auto. induction H as [|env out envs outs H1 H2 IH2]; simpl; auto.
       destruct (step_env env j) as [e1|] eqn:E; try discriminate.
-      rewrite (step_join_rows _ _ _ E). simpl. constructor; auto.
+      rewrite (step_join_rows _ _ _ Hj1 E). simpl. constructor; auto.
   Qed.
 
   (* the i-th join put the row of the referenced object at position |env0| + i *)
@@ -276,7 +281,7 @@ Section Agree.
           -- intros H. injection H as <-. apply andb_true_iff in E. destruct E as [E1 E2].
              apply Nat.eqb_eq in E1. apply Z.eqb_eq in E2. subst. split; [lia|].
              exists tgt. cbn [pred]. rewrite nth_error_app2 by lia. now rewrite Nat.sub_diag.
-          -- intros H. destruct (Hp _ _ _ H) as [Hge [t Hn]]. split; auto. exists t.
+          -- intros H. destruct (Hp _ _ _ H) as [Hge [t' Hn]]. split; auto. exists t'.
              rewrite nth_error_app1; auto. eapply nth_some_lt; eauto.
       + exists [row_of o']. unfold renv in *. cbn [j_joins]. rewrite build_env_app, He. simpl.
         rewrite Hcol, Hf, Ht. split; auto.
@@ -313,8 +318,10 @@ Section Agree.
   Qed.
 
   Variables sel root : Z.
-  Let vars : list (Z * Z) := [(sel, root)].
-  Let bnd : binding := [(sel, o)].
+  Variable vars : list (Z * Z).      (* the query's variables: the selected one has type root *)
+  Hypothesis Hvars : assoc sel vars = Some root.
+  Variable bnd : binding.            (* the binding under which the condition is evaluated in memory *)
+  Hypothesis Hbnd : assoc sel bnd = Some o.
 
   Lemma renv_root st env : renv st = Some env -> nth_error env 0 = Some (row_of o).
   Proof. intros H. destruct (build_env_prefix _ _ _ H) as [more [-> _]]. reflexivity. Qed.
@@ -335,13 +342,13 @@ Section Agree.
   Proof.
     intros st env v Hinv He Hs Hd. destruct x as [x ch| c | |]; try discriminate.
     - destruct (shape_attr _ _ Hs) as [Hv _]. cbn [operand_data] in Hd. rewrite Hv in Hd.
-      unfold toperand, tattr, bnd. rewrite Hv.
+      unfold toperand, tattr. rewrite Hv. assert (Hx : x = sel) by (now apply Z.eqb_eq). subst x.
       destruct (twalk_ok _ _ _ _ _ _ _ Hinv He (renv_root _ _ He) Hd)
         as [i [a [st' [more [H1 [H2 [H3 [H4 [H5 [H6 H7]]]]]]]]]].
       exists (SCol i a), st', more. rewrite H1.
       split; [reflexivity|]. split; [assumption|]. split; [assumption|].
       split; [intros more'; simpl; rewrite ecol_app; auto|].
-      split; [simpl; rewrite Hv; exact H6|]. split; [assumption|]. split; reflexivity.
+      split; [simpl; rewrite Hbnd; exact H6|]. split; [assumption|]. split; reflexivity.
     - simpl in Hs. simpl in Hd. destruct (nscalar c) eqn:Es; try discriminate. injection Hd as <-.
       exists (SConst c), st, []. rewrite app_nil_r.
       split; [reflexivity|]. split; [assumption|]. split; [assumption|].
@@ -362,7 +369,7 @@ Section Agree.
   Lemma shape_not_rel x : operand_shape sc sel root x = true -> is_rel sc vars x = false.
   Proof.
     destruct x as [v ch| | |]; auto. intros H. destruct (shape_attr _ _ H) as [E1 E2].
-    apply Z.eqb_eq in E1. subst v. unfold is_rel, vars. simpl assoc. now rewrite Z.eqb_refl, E2.
+    apply Z.eqb_eq in E1. subst v. unfold is_rel. now rewrite Hvars, E2.
   Qed.
   Lemma rel_check_shape b l r :
     operand_shape sc sel root l = true -> operand_shape sc sel root r = true -> rel_check sc vars b l r = true.
@@ -443,6 +450,133 @@ Section Agree.
   Qed.
 End Agree.
 
+(* ---------- the selected type has no instance: the statement still executes, both sides are empty ---------- *)
+Lemma twalk_safe sc chain : forall st cur ccls e st',
+  twalk sc st cur ccls chain = ROk e st' -> sx_bad e = false.
+Proof.
+  induction chain as [|a rest IH]; intros st cur ccls e st' H; simpl in H; try discriminate.
+  destruct (field_kind sc ccls a) as [[|tgt]|]; try discriminate.
+  - destruct rest; try discriminate. now injection H as <- <-.
+  - destruct rest as [|b rest'].
+    + now injection H as <- <-.
+    + destruct (alias_for st cur a tgt) as [i st1] eqn:E. eapply IH; exact H.
+Qed.
+Section Syn.
+  Variable sc : schema.
+  Variables sel root : Z.
+  Variable vars : list (Z * Z).
+  Hypothesis Hvars : assoc sel vars = Some root.
+
+Lemma toperand_safe x st e st' :
+  operand_shape sc sel root x = true -> toperand sc vars sel root st x = ROk e st' -> sx_bad e = false.
+Proof.
+  intros Hx H. destruct x as [v ch|c| |]; try discriminate.
+  - unfold toperand, tattr in H. destruct (v =? sel); try discriminate. eapply twalk_safe; eauto.
+  - simpl in H, Hx. injection H as <- <-. now destruct c.
+Qed.
+Lemma mk_cmp_bad op a b p : mk_cmp op a b = Some p -> sx_bad a = false -> sx_bad b = false -> pred_bad p = false.
+Proof.
+  intros H Ba Bb. unfold mk_cmp in H.
+  destruct op; try destruct (is_col a && is_col b); destruct b as [|[]]; try discriminate;
+    injection H as <-; simpl; rewrite ?Ba, ?Bb; auto.
+Qed.
+Lemma tcond_safe c : forall io st p st',
+  cond_shape sc sel root c = true -> tcond sc vars sel root io st c = ROk p st' ->
+  forall p0, p = Some p0 -> pred_bad p0 = false.
+Proof.
+  induction c as [op l r|ct it|p1 IH1 q1 IH2|p1 IH1 q1 IH2|p1 _|x]; intros io st p st' Hc H;
+    cbn [cond_shape] in Hc; try discriminate.
+  - destruct l as [v ch| | |]; try discriminate. apply andb_true_iff in Hc. destruct Hc as [Hc _].
+    apply andb_true_iff in Hc. destruct Hc as [Hc1 Hc2].
+    cbn [tcond] in H. unfold tcmp in H. rewrite (teqjoin_none sc sel root vars io st op v ch r Hc1 Hc2) in H.
+    destruct (negb (rel_check sc vars (eqne op) (OAttr v ch) r)); try discriminate.
+    destruct (toperand sc vars sel root st (OAttr v ch)) as [a st1| | |] eqn:E1; try discriminate.
+    destruct (toperand sc vars sel root st1 r) as [b st2| | |] eqn:E2; try discriminate.
+    assert (B1 := toperand_safe _ _ _ _ Hc1 E1). assert (B2 := toperand_safe _ _ _ _ Hc2 E2).
+    destruct (mk_cmp op a b) as [p0|] eqn:Em; try discriminate. injection H as <- <-.
+    intros p1 Hp. injection Hp as <-. eapply mk_cmp_bad; eauto.
+  - destruct ct as [| |cs|]; try discriminate. destruct it as [v ch| | |]; try discriminate.
+    apply andb_true_iff in Hc. destruct Hc as [Hc1 Hc2].
+    cbn [tcond] in H. unfold tcontains in H.
+    destruct (is_rel sc vars (OList cs) || is_rel sc vars (OAttr v ch)); try discriminate.
+    destruct (tattr sc sel root st v ch) as [a st1| | |] eqn:E1; try discriminate.
+    injection H as <- <-.
+    assert (B1 := toperand_safe (OAttr v ch) st a st1 Hc1 E1).
+    intros p0 Hp. injection Hp as <-. simpl. rewrite B1. now apply unbindable_scalars.
+  - apply andb_true_iff in Hc. destruct Hc as [Hc1 Hc2]. cbn [tcond] in H.
+    destruct (tcond sc vars sel root io st p1) as [a st1| | |] eqn:E1; try discriminate.
+    destruct (tcond sc vars sel root io st1 q1) as [b st2| | |] eqn:E2; try discriminate.
+    injection H as <- <-. assert (B1 := IH1 _ _ _ _ Hc1 E1). assert (B2 := IH2 _ _ _ _ Hc2 E2).
+    intros p0 Hp. destruct a, b; simpl in Hp; try discriminate; injection Hp as <-; simpl;
+      rewrite ?(B1 _ eq_refl), ?(B2 _ eq_refl); auto.
+  - apply andb_true_iff in Hc. destruct Hc as [Hc1 Hc2]. cbn [tcond] in H.
+    destruct (tcond sc vars sel root true st p1) as [a st1| | |] eqn:E1; try discriminate.
+    destruct (tcond sc vars sel root true st1 q1) as [b st2| | |] eqn:E2; try discriminate.
+    injection H as <- <-. assert (B1 := IH1 _ _ _ _ Hc1 E1). assert (B2 := IH2 _ _ _ _ Hc2 E2).
+    intros p0 Hp. destruct a, b; simpl in Hp; try discriminate; injection Hp as <-; simpl;
+      rewrite ?(B1 _ eq_refl), ?(B2 _ eq_refl); auto.
+  - destruct x as [v ch| | |]; try discriminate. cbn [tcond] in H.
+    destruct (tattr sc sel root st v ch) as [a st1| | |] eqn:E1; try discriminate. injection H as <- <-.
+    assert (B1 := toperand_safe (OAttr v ch) st a st1 Hc E1).
+    intros p0 Hp. injection Hp as <-. exact B1.
+Qed.
+
+Definition relonly (st : jm) : Prop := forallb is_jrel (j_joins st) = true.
+Lemma alias_for_relonly st cur a tgt i st' : relonly st -> alias_for st cur a tgt = (i, st') -> relonly st'.
+Proof.
+  unfold relonly, alias_for. intros H. destruct (lookup_path (j_paths st) cur a); intros E; injection E as <- <-; auto.
+  cbn [j_joins]. rewrite forallb_app, H. reflexivity.
+Qed.
+Lemma twalk_relonly chain : forall st cur ccls e st',
+  relonly st -> twalk sc st cur ccls chain = ROk e st' -> relonly st'.
+Proof.
+  induction chain as [|a rest IH]; intros st cur ccls e st' Hr H; simpl in H; try discriminate.
+  destruct (field_kind sc ccls a) as [[|tgt]|]; try discriminate.
+  - destruct rest; try discriminate. now injection H as <- <-.
+  - destruct rest as [|b rest'].
+    + now injection H as <- <-.
+    + destruct (alias_for st cur a tgt) as [i st1] eqn:E. eapply IH; [|exact H]. eapply alias_for_relonly; eauto.
+Qed.
+Lemma toperand_relonly x st e st' :
+  operand_shape sc sel root x = true -> relonly st -> toperand sc vars sel root st x = ROk e st' -> relonly st'.
+Proof.
+  intros Hx Hr H. destruct x as [v ch|c| |]; try discriminate.
+  - unfold toperand, tattr in H. destruct (v =? sel); try discriminate. eapply twalk_relonly; eauto.
+  - simpl in H. now injection H as <- <-.
+Qed.
+Lemma tcond_relonly c : forall io st p st',
+  cond_shape sc sel root c = true -> relonly st -> tcond sc vars sel root io st c = ROk p st' -> relonly st'.
+Proof.
+  induction c as [op l r|ct it|p1 IH1 q1 IH2|p1 IH1 q1 IH2|p1 _|x]; intros io st p st' Hc Hr H;
+    cbn [cond_shape] in Hc; try discriminate.
+  - destruct l as [v ch| | |]; try discriminate. apply andb_true_iff in Hc. destruct Hc as [Hc _].
+    apply andb_true_iff in Hc. destruct Hc as [Hc1 Hc2].
+    cbn [tcond] in H. unfold tcmp in H. rewrite (teqjoin_none sc sel root vars io st op v ch r Hc1 Hc2) in H.
+    destruct (negb (rel_check sc vars (eqne op) (OAttr v ch) r)); try discriminate.
+    destruct (toperand sc vars sel root st (OAttr v ch)) as [a st1| | |] eqn:E1; try discriminate.
+    destruct (toperand sc vars sel root st1 r) as [b st2| | |] eqn:E2; try discriminate.
+    destruct (mk_cmp op a b); try discriminate. injection H as _ <-.
+    eapply toperand_relonly; [exact Hc2| |exact E2]. eapply toperand_relonly; [exact Hc1|exact Hr|exact E1].
+  - destruct ct as [| |cs|]; try discriminate. destruct it as [v ch| | |]; try discriminate.
+    apply andb_true_iff in Hc. destruct Hc as [Hc1 Hc2].
+    cbn [tcond] in H. unfold tcontains in H.
+    destruct (is_rel sc vars (OList cs) || is_rel sc vars (OAttr v ch)); try discriminate.
+    destruct (tattr sc sel root st v ch) as [a st1| | |] eqn:E1; try discriminate.
+    injection H as _ <-. eapply (toperand_relonly (OAttr v ch)); eauto.
+  - apply andb_true_iff in Hc. destruct Hc as [Hc1 Hc2]. cbn [tcond] in H.
+    destruct (tcond sc vars sel root io st p1) as [a st1| | |] eqn:E1; try discriminate.
+    destruct (tcond sc vars sel root io st1 q1) as [b st2| | |] eqn:E2; try discriminate.
+    injection H as _ <-. eauto.
+  - apply andb_true_iff in Hc. destruct Hc as [Hc1 Hc2]. cbn [tcond] in H.
+    destruct (tcond sc vars sel root true st p1) as [a st1| | |] eqn:E1; try discriminate.
+    destruct (tcond sc vars sel root true st1 q1) as [b st2| | |] eqn:E2; try discriminate.
+    injection H as _ <-. eauto.
+  - destruct x as [v ch| | |]; try discriminate. cbn [tcond] in H.
+    destruct (tattr sc sel root st v ch) as [a st1| | |] eqn:E1; try discriminate. injection H as _ <-.
+    eapply (toperand_relonly (OAttr v ch)); eauto.
+Qed.
+End Syn.
+
 Lemma inv_jm0 : inv jm0.
 Proof. intros src a i H. discriminate. Qed.
 
@@ -475,36 +609,41 @@ Proof.
   intros Ht Hf [v0 [root0 [Ev0 Hne]]]. unfold f07 in Hf. rewrite Ev0 in Hf.
   destruct (q_cond q) as [c|] eqn:Ec; try discriminate.
   repeat (apply andb_true_iff in Hf; destruct Hf as [Hf ?]).
-  rename H into Hall, H0 into Hnd, H1 into Hshape. apply Z.eqb_eq in Hf.
-  unfold translate in Ht. rewrite Ev0, Ec, <- Hf in Ht. simpl assoc in Ht. rewrite Z.eqb_refl in Ht.
+  rename H into Hall, H0 into Hnd, H1 into Hshape, H2 into Hf0. apply negb_true_iff in Hf. apply Z.eqb_eq in Hf0.
+  unfold translate in Ht. rewrite Hf in Ht. clear Hf. rename Hf0 into Hf.
+  rewrite Ev0, Ec, <- Hf in Ht. simpl assoc in Ht. rewrite Z.eqb_refl in Ht.
   destruct (tcond sc [(v0, root0)] v0 root0 false jm0 c) as [p st| | |] eqn:Et; try discriminate.
   injection Ht as <-.
   rewrite forallb_forall in Hall.
+  destruct (instances sc w root0) as [|o1 rest] eqn:Ei; [now destruct Hne|]. rewrite <- Ei in *.
+  assert (Hv0 : assoc v0 [(v0, root0)] = Some root0) by (simpl; now rewrite Z.eqb_refl).
+  assert (Hrel : forallb is_jrel (j_joins st) = true).
+  { apply (tcond_relonly sc v0 root0 [(v0, root0)] c false jm0 p st Hshape eq_refl Et). }
   assert (Hobj : forall o, In o (instances sc w root0) ->
-            exists p0 more b, p = Some p0 /\ build_env sc w [row_of o] (j_joins st) = Some ([row_of o] ++ more) /\
+            exists p0 more b, p = Some p0 /\ build_env sc w o1 [row_of o] (j_joins st) = Some ([row_of o] ++ more) /\
                               eval_cond w [(v0, o)] c = Ok b /\ tv_true (eval_pred ([row_of o] ++ more) p0) = b /\
                               pred_bad p0 = false).
   { intros o Ho.
-    destruct (tcond_ok sc w o v0 root0 c false jm0 [row_of o] inv_jm0 eq_refl Hshape (Hall o Ho))
+    assert (Hb0 : assoc v0 [(v0, o)] = Some o) by (simpl; now rewrite Z.eqb_refl).
+    destruct (tcond_ok sc w o1 o v0 root0 [(v0, root0)] Hv0 [(v0, o)] Hb0 c false jm0 [row_of o] inv_jm0 eq_refl Hshape (Hall o Ho))
       as [p0 [st' [more [b [T [I [R [E [V B]]]]]]]]].
     rewrite Et in T. injection T as -> ->. exists p0, more, b.
     repeat split; auto. specialize (V []). now rewrite app_nil_r in V. }
-  destruct (instances sc w root0) as [|o1 rest] eqn:Ei; [now destruct Hne|]. rewrite <- Ei in *.
   destruct (Hobj o1) as [p0 [_ [_ [-> [_ [_ [_ Hbad]]]]]]]; [rewrite Ei; now left|].
   set (g := fun o => match eval_cond w [(v0, o)] c with Ok b => b | Err _ => false end).
-  set (envf := fun o => match build_env sc w [row_of o] (j_joins st) with Some e => e | None => [] end).
+  set (envf := fun o => match build_env sc w o1 [row_of o] (j_joins st) with Some e => e | None => [] end).
   unfold sem_res, sem. cbn [s_invalid s_where s_joins s_root]. rewrite Hbad. cbn [orb].
   unfold answers. rewrite Ev0, Ec. cbn [bindings map].
   rewrite <- Hf. rewrite (collect_single _ g).
   - f_equal. unfold encode at 2. rewrite map_map.
-    rewrite (envs_of_build sc w Hnd (j_joins st) _ (map envf (instances sc w root0))).
+    rewrite (envs_of_build sc w Hnd o1 (j_joins st) Hrel _ (map envf (instances sc w root0))).
     + apply filter_map_rows. intros o Ho.
       destruct (Hobj o Ho) as [p1 [more [b [Hp [Hb [He [Hv _]]]]]]]. injection Hp as <-.
       unfold envf, g. rewrite Hb, He. split; [reflexivity|].
       unfold where_true. cbn [s_where]. exact Hv.
     + assert (HF : forall l : list obj,
-                (forall o, In o l -> exists e, build_env sc w [row_of o] (j_joins st) = Some e) ->
-                Forall2 (fun env out => build_env sc w env (j_joins st) = Some out)
+                (forall o, In o l -> exists e, build_env sc w o1 [row_of o] (j_joins st) = Some e) ->
+                Forall2 (fun env out => build_env sc w o1 env (j_joins st) = Some out)
                         (map (fun x => [row_of x]) l) (map envf l)).
       { induction l as [|o l IH]; intros Hl; simpl; constructor.
         - destruct (Hl o (or_introl eq_refl)) as [e He]. unfold envf. now rewrite He.
@@ -513,70 +652,6 @@ Proof.
   - intros o Ho. destruct (Hobj o Ho) as [p1 [more [b [_ [_ [He _]]]]]]. unfold g. now rewrite He.
 Qed.
 
-(* ---------- the selected type has no instance: the statement still executes, both sides are empty ---------- *)
-Lemma twalk_safe sc chain : forall st cur ccls e st',
-  twalk sc st cur ccls chain = ROk e st' -> sx_bad e = false.
-Proof.
-  induction chain as [|a rest IH]; intros st cur ccls e st' H; simpl in H; try discriminate.
-  destruct (field_kind sc ccls a) as [[|tgt]|]; try discriminate.
-  - destruct rest; try discriminate. now injection H as <- <-.
-  - destruct rest as [|b rest'].
-    + now injection H as <- <-.
-    + destruct (alias_for st cur a tgt) as [i st1] eqn:E. eapply IH; exact H.
-Qed.
-Lemma toperand_safe sc sel root x st e st' :
-  operand_shape sc sel root x = true -> toperand sc [(sel, root)] sel root st x = ROk e st' -> sx_bad e = false.
-Proof.
-  intros Hx H. destruct x as [v ch|c| |]; try discriminate.
-  - unfold toperand, tattr in H. destruct (v =? sel); try discriminate. eapply twalk_safe; eauto.
-  - simpl in H, Hx. injection H as <- <-. now destruct c.
-Qed.
-Lemma mk_cmp_bad op a b p : mk_cmp op a b = Some p -> sx_bad a = false -> sx_bad b = false -> pred_bad p = false.
-Proof.
-  intros H Ba Bb. unfold mk_cmp in H.
-  destruct op; try destruct (is_col a && is_col b); destruct b as [|[]]; try discriminate;
-    injection H as <-; simpl; rewrite ?Ba, ?Bb; auto.
-Qed.
-Lemma tcond_safe sc sel root c : forall io st p st',
-  cond_shape sc sel root c = true -> tcond sc [(sel, root)] sel root io st c = ROk p st' ->
-  forall p0, p = Some p0 -> pred_bad p0 = false.
-Proof.
-  induction c as [op l r|ct it|p1 IH1 q1 IH2|p1 IH1 q1 IH2|p1 _|x]; intros io st p st' Hc H;
-    cbn [cond_shape] in Hc; try discriminate.
-  - destruct l as [v ch| | |]; try discriminate. apply andb_true_iff in Hc. destruct Hc as [Hc _].
-    apply andb_true_iff in Hc. destruct Hc as [Hc1 Hc2].
-    cbn [tcond] in H. unfold tcmp in H. rewrite (teqjoin_none sc sel root io st op v ch r Hc1 Hc2) in H.
-    destruct (negb (rel_check sc [(sel, root)] (eqne op) (OAttr v ch) r)); try discriminate.
-    destruct (toperand sc [(sel, root)] sel root st (OAttr v ch)) as [a st1| | |] eqn:E1; try discriminate.
-    destruct (toperand sc [(sel, root)] sel root st1 r) as [b st2| | |] eqn:E2; try discriminate.
-    assert (B1 := toperand_safe _ _ _ _ _ _ _ Hc1 E1). assert (B2 := toperand_safe _ _ _ _ _ _ _ Hc2 E2).
-    destruct (mk_cmp op a b) as [p0|] eqn:Em; try discriminate. injection H as <- <-.
-    intros p1 Hp. injection Hp as <-. eapply mk_cmp_bad; eauto.
-  - destruct ct as [| |cs|]; try discriminate. destruct it as [v ch| | |]; try discriminate.
-    apply andb_true_iff in Hc. destruct Hc as [Hc1 Hc2].
-    cbn [tcond] in H. unfold tcontains in H.
-    destruct (is_rel sc [(sel, root)] (OList cs) || is_rel sc [(sel, root)] (OAttr v ch)); try discriminate.
-    destruct (tattr sc sel root st v ch) as [a st1| | |] eqn:E1; try discriminate.
-    injection H as <- <-.
-    assert (B1 := toperand_safe sc sel root (OAttr v ch) st a st1 Hc1 E1).
-    intros p0 Hp. injection Hp as <-. simpl. rewrite B1. now apply unbindable_scalars.
-  - apply andb_true_iff in Hc. destruct Hc as [Hc1 Hc2]. cbn [tcond] in H.
-    destruct (tcond sc [(sel, root)] sel root io st p1) as [a st1| | |] eqn:E1; try discriminate.
-    destruct (tcond sc [(sel, root)] sel root io st1 q1) as [b st2| | |] eqn:E2; try discriminate.
-    injection H as <- <-. assert (B1 := IH1 _ _ _ _ Hc1 E1). assert (B2 := IH2 _ _ _ _ Hc2 E2).
-    intros p0 Hp. destruct a, b; simpl in Hp; try discriminate; injection Hp as <-; simpl;
-      rewrite ?(B1 _ eq_refl), ?(B2 _ eq_refl); auto.
-  - apply andb_true_iff in Hc. destruct Hc as [Hc1 Hc2]. cbn [tcond] in H.
-    destruct (tcond sc [(sel, root)] sel root true st p1) as [a st1| | |] eqn:E1; try discriminate.
-    destruct (tcond sc [(sel, root)] sel root true st1 q1) as [b st2| | |] eqn:E2; try discriminate.
-    injection H as <- <-. assert (B1 := IH1 _ _ _ _ Hc1 E1). assert (B2 := IH2 _ _ _ _ Hc2 E2).
-    intros p0 Hp. destruct a, b; simpl in Hp; try discriminate; injection Hp as <-; simpl;
-      rewrite ?(B1 _ eq_refl), ?(B2 _ eq_refl); auto.
-  - destruct x as [v ch| | |]; try discriminate. cbn [tcond] in H.
-    destruct (tattr sc sel root st v ch) as [a st1| | |] eqn:E1; try discriminate. injection H as <- <-.
-    assert (B1 := toperand_safe sc sel root (OAttr v ch) st a st1 Hc E1).
-    intros p0 Hp. injection Hp as <-. exact B1.
-Qed.
 
 Lemma envs_of_nil d js : envs_of d js [] = [].
 Proof. induction js; simpl; auto. Qed.
@@ -588,11 +663,12 @@ Proof.
   intros Ht Hf Ev Hi. unfold f07 in Hf. rewrite Ev in Hf.
   destruct (q_cond q) as [c|] eqn:Ec; try discriminate.
   repeat (apply andb_true_iff in Hf; destruct Hf as [Hf ?]).
-  rename H1 into Hshape. apply Z.eqb_eq in Hf.
-  unfold translate in Ht. rewrite Ev, Ec, <- Hf in Ht. simpl assoc in Ht. rewrite Z.eqb_refl in Ht.
+  rename H1 into Hshape, H2 into Hf0. apply negb_true_iff in Hf. apply Z.eqb_eq in Hf0.
+  unfold translate in Ht. rewrite Hf in Ht. clear Hf. rename Hf0 into Hf.
+  rewrite Ev, Ec, <- Hf in Ht. simpl assoc in Ht. rewrite Z.eqb_refl in Ht.
   destruct (tcond sc [(v, root)] v root false jm0 c) as [p st| | |] eqn:Et; try discriminate.
   injection Ht as <-.
-  assert (B := tcond_safe sc v root c false jm0 p st Hshape Et).
+  assert (B := tcond_safe sc v root [(v, root)] c false jm0 p st Hshape Et).
   unfold sem_res, sem. cbn [s_invalid s_where s_joins s_root].
   assert (Hb : match p with Some p0 => pred_bad p0 | None => false end = false).
   { destruct p; auto. }
@@ -628,7 +704,8 @@ Proof.
 Qed.
 Theorem not_never_answered sc q c : q_cond q = Some c -> has_not c = true -> forall s, translate sc q <> TOk s.
 Proof.
-  intros Hc Hn s. unfold translate. rewrite Hc. destruct (assoc (q_sel q) (q_vars q)); try discriminate.
+  intros Hc Hn s. unfold translate. destruct (q_setof q); try discriminate.
+  rewrite Hc. destruct (assoc (q_sel q) (q_vars q)); try discriminate.
   destruct (tcond sc (q_vars q) (q_sel q) z false jm0 c) eqn:E; try discriminate. exfalso. eapply tcond_not; eauto.
 Qed.
 
@@ -638,9 +715,9 @@ Definition atom_query (q : query) (c : cond) : Prop := q_cond q = Some c.
 
 (* C07-a: an attribute of a variable other than the selected one, compared with a literal *)
 Theorem rejects_othervar sc q op v ch lit :
-  atom_query q (CCmp op (OAttr v ch) (OLit lit)) -> v <> q_sel q -> translate sc q = TReject.
+  q_setof q = false -> atom_query q (CCmp op (OAttr v ch) (OLit lit)) -> v <> q_sel q -> translate sc q = TReject.
 Proof.
-  intros Hc Hv. unfold translate. rewrite Hc. destruct (assoc (q_sel q) (q_vars q)) as [root|]; auto.
+  intros Hso Hc Hv. unfold translate. rewrite Hso, Hc. destruct (assoc (q_sel q) (q_vars q)) as [root|]; auto.
   cbn [tcond]. unfold tcmp.
   assert (E : teqjoin sc (q_vars q) root false jm0 op (OAttr v ch) (OLit lit) = None) by (destruct op; reflexivity).
   rewrite E. destruct (negb (rel_check sc (q_vars q) (eqne op) (OAttr v ch) (OLit lit))); auto.
@@ -652,31 +729,31 @@ Proof. intros Hv. unfold tattr. apply Z.eqb_neq in Hv. now rewrite Hv. Qed.
 
 (* C07-c: a relationship-valued operand against a plain literal, whatever the operator *)
 Theorem rejects_rel_literal sc q op v ch lit :
-  atom_query q (CCmp op (OAttr v ch) (OLit lit)) -> is_rel sc (q_vars q) (OAttr v ch) = true ->
+  q_setof q = false -> atom_query q (CCmp op (OAttr v ch) (OLit lit)) -> is_rel sc (q_vars q) (OAttr v ch) = true ->
   translate sc q = TReject.
 Proof.
-  intros Hc Hr. unfold translate. rewrite Hc. destruct (assoc (q_sel q) (q_vars q)) as [root|]; auto.
+  intros Hso Hc Hr. unfold translate. rewrite Hso, Hc. destruct (assoc (q_sel q) (q_vars q)) as [root|]; auto.
   cbn [tcond]. unfold tcmp.
   assert (E : teqjoin sc (q_vars q) root false jm0 op (OAttr v ch) (OLit lit) = None) by (destruct op; reflexivity).
   rewrite E. unfold rel_check. rewrite Hr. cbn [is_rel is_var negb orb andb]. reflexivity.
 Qed.
 Theorem rejects_rel_in_list sc q v ch cs :
-  atom_query q (CContains (OList cs) (OAttr v ch)) -> is_rel sc (q_vars q) (OAttr v ch) = true ->
+  q_setof q = false -> atom_query q (CContains (OList cs) (OAttr v ch)) -> is_rel sc (q_vars q) (OAttr v ch) = true ->
   translate sc q = TReject.
 Proof.
-  intros Hc Hr. unfold translate. rewrite Hc. destruct (assoc (q_sel q) (q_vars q)) as [root|]; auto.
+  intros Hso Hc Hr. unfold translate. rewrite Hso, Hc. destruct (assoc (q_sel q) (q_vars q)) as [root|]; auto.
   cbn [tcond]. unfold tcontains. rewrite Hr. cbn [is_rel orb]. reflexivity.
 Qed.
 
 (* C07-g: an attribute-equality join of two different variables whose join target is the selected type itself *)
 Theorem rejects_selfjoin sc q v1 ch1 v2 ch2 root a1 a2 t1 t2 :
-  atom_query q (CCmp OEq (OAttr v1 ch1) (OAttr v2 ch2)) -> v1 <> v2 ->
+  q_setof q = false -> atom_query q (CCmp OEq (OAttr v1 ch1) (OAttr v2 ch2)) -> v1 <> v2 ->
   assoc (q_sel q) (q_vars q) = Some root -> assoc v1 (q_vars q) = Some root -> assoc v2 (q_vars q) = Some root ->
   last_of ch1 = Some a1 -> last_of ch2 = Some a2 ->
   field_kind sc root a1 = Some (FRel t1) -> field_kind sc root a2 = Some (FRel t2) ->
   translate sc q = TReject.
 Proof.
-  intros Hc Hv Hs H1 H2 L1 L2 K1 K2. unfold translate. rewrite Hc, Hs. cbn [tcond]. unfold tcmp, teqjoin.
+  intros Hso Hc Hv Hs H1 H2 L1 L2 K1 K2. unfold translate. rewrite Hso, Hc, Hs. cbn [tcond]. unfold tcmp, teqjoin.
   apply Z.eqb_neq in Hv. rewrite Hv, H1, H2, L1, L2, K1, K2. rewrite Z.eqb_refl. cbn [orb].
   unfold related. rewrite Z.eqb_refl. reflexivity.
 Qed.
@@ -685,7 +762,8 @@ Qed.
 Theorem rejects_none_order sc q op v ch :
   atom_query q (CCmp op (OAttr v ch) (OLit VNull)) -> eqne op = false -> forall s, translate sc q <> TOk s.
 Proof.
-  intros Hc Ho s. unfold translate. rewrite Hc. destruct (assoc (q_sel q) (q_vars q)) as [root|]; try discriminate.
+  intros Hc Ho s. unfold translate. destruct (q_setof q); try discriminate.
+  rewrite Hc. destruct (assoc (q_sel q) (q_vars q)) as [root|]; try discriminate.
   cbn [tcond]. unfold tcmp.
   assert (E : teqjoin sc (q_vars q) root false jm0 op (OAttr v ch) (OLit VNull) = None) by (destruct op; reflexivity).
   rewrite E. destruct (negb (rel_check sc (q_vars q) (eqne op) (OAttr v ch) (OLit VNull))); try discriminate.
@@ -703,8 +781,14 @@ Proof.
   - destruct rest as [|b rest']; try discriminate.
     destruct (alias_for st cur a tgt) as [i st1]. apply IH. exact H.
 Qed.
-Lemma toperand_total sc sel root x st : operand_shape sc sel root x = true ->
-  exists e st', toperand sc [(sel, root)] sel root st x = ROk e st' /\
+Section SynTotal.
+  Variable sc : schema.
+  Variables sel root : Z.
+  Variable vars : list (Z * Z).
+  Hypothesis Hvars : assoc sel vars = Some root.
+
+Lemma toperand_total x st : operand_shape sc sel root x = true ->
+  exists e st', toperand sc vars sel root st x = ROk e st' /\
                 match x with OAttr _ _ => is_col e = true | OLit c => e = SConst c | _ => True end.
 Proof.
   intros H. destruct x as [v ch|c| |]; try discriminate.
@@ -721,37 +805,40 @@ Proof.
   - destruct b; try discriminate. destruct op; simpl; rewrite ?Ha; simpl; eauto.
   - subst b. destruct a; try discriminate. destruct op; simpl in *; destruct c; try discriminate; eauto.
 Qed.
-Lemma tcond_total sc sel root c : cond_shape sc sel root c = true ->
-  forall io st, exists p st', tcond sc [(sel, root)] sel root io st c = ROk (Some p) st'.
+Lemma tcond_total c : cond_shape sc sel root c = true ->
+  forall io st, exists p st', tcond sc vars sel root io st c = ROk (Some p) st'.
 Proof.
   induction c as [op l r|ct it|p1 IH1 q1 IH2|p1 IH1 q1 IH2|p1 _|x]; intros Hc io st; cbn [cond_shape] in Hc; try discriminate.
   - destruct l as [v ch| | |]; try discriminate. apply andb_true_iff in Hc. destruct Hc as [Hc Hn].
     apply andb_true_iff in Hc. destruct Hc as [Hc1 Hc2].
-    cbn [tcond]. unfold tcmp. rewrite (teqjoin_none sc sel root io st op v ch r Hc1 Hc2), (rel_check_shape sc sel root _ _ _ Hc1 Hc2).
-    cbn [negb]. destruct (toperand_total sc sel root _ st Hc1) as [a [st1 [T1 A1]]]. rewrite T1.
-    destruct (toperand_total sc sel root _ st1 Hc2) as [b [st2 [T2 A2]]]. rewrite T2.
+    cbn [tcond]. unfold tcmp. rewrite (teqjoin_none sc sel root vars io st op v ch r Hc1 Hc2), (rel_check_shape sc sel root vars Hvars _ _ _ Hc1 Hc2).
+    cbn [negb]. destruct (toperand_total _ st Hc1) as [a [st1 [T1 A1]]]. rewrite T1.
+    destruct (toperand_total _ st1 Hc2) as [b [st2 [T2 A2]]]. rewrite T2.
     destruct (mk_cmp_total op a b r A1 A2 Hn) as [p M].
     { destruct r; try discriminate; eauto. }
     rewrite M. eauto.
   - destruct ct as [| |cs|]; try discriminate. destruct it as [v ch| | |]; try discriminate.
     apply andb_true_iff in Hc. destruct Hc as [Hc1 Hc2]. cbn [tcond]. unfold tcontains.
-    rewrite (shape_not_rel sc sel root _ Hc1). cbn [is_rel orb].
-    destruct (toperand_total sc sel root _ st Hc1) as [a [st1 [T1 _]]]. cbn [toperand] in T1. rewrite T1. eauto.
+    rewrite (shape_not_rel sc sel root vars Hvars _ Hc1). cbn [is_rel orb].
+    destruct (toperand_total _ st Hc1) as [a [st1 [T1 _]]]. cbn [toperand] in T1. rewrite T1. eauto.
   - apply andb_true_iff in Hc. destruct Hc as [Hc1 Hc2]. cbn [tcond].
     destruct (IH1 Hc1 io st) as [a [st1 T1]]. rewrite T1. destruct (IH2 Hc2 io st1) as [b [st2 T2]]. rewrite T2. simpl. eauto.
   - apply andb_true_iff in Hc. destruct Hc as [Hc1 Hc2]. cbn [tcond].
     destruct (IH1 Hc1 true st) as [a [st1 T1]]. rewrite T1. destruct (IH2 Hc2 true st1) as [b [st2 T2]]. rewrite T2. simpl. eauto.
   - destruct x as [v ch| | |]; try discriminate. cbn [tcond].
-    destruct (toperand_total sc sel root _ st Hc) as [a [st1 [T1 _]]]. cbn [toperand] in T1. rewrite T1. eauto.
+    destruct (toperand_total _ st Hc) as [a [st1 [T1 _]]]. cbn [toperand] in T1. rewrite T1. eauto.
 Qed.
+End SynTotal.
+
 Theorem f07_accepted sc q w : f07 sc q w = true -> exists s, translate sc q = TOk s.
 Proof.
   intros Hf. unfold f07 in Hf. destruct (q_vars q) as [|[v root] [|]] eqn:Ev; try discriminate.
   destruct (q_cond q) as [c|] eqn:Ec; try discriminate.
   repeat (apply andb_true_iff in Hf; destruct Hf as [Hf ?]).
-  rename H1 into Hshape. apply Z.eqb_eq in Hf.
-  destruct (tcond_total sc v root c Hshape false jm0) as [p [st T]].
-  unfold translate. rewrite Ev, Ec, <- Hf. simpl assoc. rewrite Z.eqb_refl, T. eauto.
+  rename H1 into Hshape, H2 into Hf0. apply negb_true_iff in Hf. apply Z.eqb_eq in Hf0.
+  assert (Hv0 : assoc v [(v, root)] = Some root) by (simpl; now rewrite Z.eqb_refl).
+  destruct (tcond_total sc v root [(v, root)] Hv0 c Hshape false jm0) as [p [st T]].
+  unfold translate. rewrite Hf, Ev, Ec, <- Hf0. simpl assoc. rewrite Z.eqb_refl, T. eauto.
 Qed.
 
 (* ---------- witnesses (each replayed on the implementation: corpus/C07/*.json) ---------- *)
@@ -778,7 +865,7 @@ Module Wit.
       {| o_key := 11; o_cls := 8; o_fields := [(10, VRef 7); (11, VRef 9)] |};
       {| o_key := 12; o_cls := 9; o_fields := [(10, VRef 9); (11, VRef 7)] |} ].
   Definition mk (the : bool) (vars : list (Z * Z)) (c : cond) : query :=
-    {| q_the := the; q_sel := 1; q_vars := vars; q_cond := Some c |}.
+    {| q_the := the; q_setof := false; q_sel := 1; q_vars := vars; q_cond := Some c |}.
   (* open: entity(o, o.w < 0) and the(entity(o, o.w < 2)) with a None w *)
   Definition q_null_lt := mk false [(1, 3)] (CCmp OLt (OAttr 1 [6]) (OLit (VInt 0))).
   Definition q_null_lt_the := mk true [(1, 3)] (CCmp OLt (OAttr 1 [6]) (OLit (VInt 2))).
